@@ -70,7 +70,11 @@ pub fn engine_for(prop: &str, tier: Tier) -> Option<(Arc<dyn Engine>, &'static s
             let fg = groups::GroupEngine { gp: props::group_share(p.id, world::Family::FutGroup, tier), fold_shared: false };
             let sg = groups::GroupEngine { gp: props::group_share(p.id, world::Family::StrGroup, tier), fold_shared: false };
             let m = driver::MultiEngine { parts: vec![(100 - 2 * share, Arc::new(e)), (share, Arc::new(fg)), (share, Arc::new(sg))], name: "comb+group" };
-            return Some((Arc::new(m), p.rule, (p.cases)(tier), (p.max_len)(tier).max(700), p.id));
+            let m: Arc<dyn Engine> = if p.id == "C20" { Arc::new(driver::C20Fold(Arc::new(m))) } else { Arc::new(m) };
+            return Some((m, p.rule, (p.cases)(tier), (p.max_len)(tier).max(700), p.id));
+        }
+        if p.id == "C20" {
+            return Some((Arc::new(driver::C20Fold(Arc::new(e))), p.rule, (p.cases)(tier), (p.max_len)(tier), p.id));
         }
         return Some((Arc::new(e), p.rule, (p.cases)(tier), (p.max_len)(tier), p.id));
     }
